@@ -5,7 +5,7 @@ from __future__ import annotations
 import ast
 import re
 
-from ..core import seq, FuncInfo, ClassInfo, Program, const_value, dotted, strip_docstring, unparse, walk_no_nested
+from ..core import call_name, seq, FuncInfo, ClassInfo, Program, const_value, dotted, strip_docstring, unparse, walk_no_nested
 from ..report import Ctx
 
 #: old -> new pairs whose names do not coincide after normalisation and whose
@@ -388,6 +388,16 @@ def _check_param_wrapper(ctx: Ctx) -> None:
     wa = wrapper.node.args
     problems = []
     dropped: list[str] = []
+    # identity: the alias decorator finds the receiver's version of a replacement through new_func.__name__, so a replacement
+    # wrapped for its renamed keywords must keep its name
+    keeps = any(isinstance(d_, ast.Call) and call_name(d_) == 'wraps' and d_.args and unparse(d_.args[0]) == fn_param for d_ in wrapper.node.decorator_list) \
+        or any(isinstance(x, ast.Call) and call_name(x) == 'update_wrapper' for x in ast.walk(decorator.node)) \
+        or any(isinstance(x, ast.Assign) and unparse(x.targets[0]).endswith('.__name__') and unparse(x.value) == f'{fn_param}.__name__' for x in ast.walk(decorator.node))
+    by_name = any(isinstance(x, ast.Attribute) and x.attr == '__name__' for x in ast.walk(prog.func('deprecated', 'deprecated').node))
+    ctx.add('C20.D5', 'deprecated.deprecated_parameters.wrapper:identity', keeps or not by_name, (wrapper.file, wrapper.line),
+            'the wrapper keeps the name of the function it wraps (functools.wraps)' if keeps else
+            f'the wrapper returned by deprecated_parameters does not take the name of the function it wraps (no functools.wraps({fn_param})): its __name__ is "wrapper", and deprecated() looks the replacement up on the receiver by new_func.__name__ - '
+            'an old method name whose replacement has renamed keywords then runs the base-class version on a subclass that redefines the replacement (and the warning says "use wrapper")', 'identity', positive=True)
     if not (wa.vararg and wa.kwarg):
         problems.append('wrapper signature is not (*args, **kwargs)')
     else:
